@@ -164,11 +164,15 @@ fn coll_aggs<T: CausableReasoning<C> + ?Sized>(v: &T, sorted: bool, out: &mut Ve
     out.push(ina.len() as i128); out.extend(ina);
 }
 
-pub fn run(args: &[i128], cont: usize) -> Vec<i128> { run_rm(args, cont, false) }
+pub fn run(args: &[i128], cont: usize) -> Vec<i128> { run_rm2(args, cont, false, false) }
+pub fn run_rm(args: &[i128], cont: usize, rm: bool) -> Vec<i128> { run_rm2(args, cont, rm, false) }
 
 // [rm]: the case is a graph of causaloids followed by a list of node indices that are REMOVED again (remove_causaloid) before
 // any reasoning call: `nrem idx*` sits between the root index and the calls. Flags are reported for the live nodes only.
-pub fn run_rm(args: &[i128], cont: usize, rm: bool) -> Vec<i128> {
+// [readd] (family causalrm2): after `nrem idx* prefill` follow `nadd (singleton)* ne (x y w)*`: causaloids added AFTER the removals
+// (they take over freed indices) and further edges; in these edges a node reference >= n means "the (ref - n)-th re-added
+// causaloid", whatever index it was given.  The output starts with `nadd idx*`, the indices add_causaloid returned.
+pub fn run_rm2(args: &[i128], cont: usize, rm: bool, readd: bool) -> Vec<i128> {
     let ctx1: &'static BaseContext = Box::leak(Box::new(Context::with_capacity(1, "c1", 2)));
     let ctx2: &'static BaseContext = Box::leak(Box::new(Context::with_capacity(2, "c2", 2)));
     let mut p = Parser { a: args, p: 0, ctxs: [ctx1, ctx2] };
@@ -223,6 +227,14 @@ pub fn run_rm(args: &[i128], cont: usize, rm: bool) -> Vec<i128> {
                     g.clear();
                 }
             }
+            let mut re_nodes: Vec<C> = Vec::new();
+            let mut re_edges: Vec<(usize, usize, u64)> = Vec::new();
+            if readd {
+                let nadd = p.next() as usize;
+                for _ in 0..nadd { let (c, _, _) = p.tree(); re_nodes.push(c); }
+                let ne = p.next() as usize;
+                for _ in 0..ne { re_edges.push((p.next() as usize, p.next() as usize, p.next() as u64)); }
+            }
             let mut kids = Vec::new();
             for (i, (c, k, kd)) in nodes.into_iter().enumerate() {
                 let ix = if is_root(root, i) { g.add_root_causaloid(c) } else { g.add_causaloid(c) };
@@ -233,6 +245,21 @@ pub fn run_rm(args: &[i128], cont: usize, rm: bool) -> Vec<i128> {
                 if w == 0 { let _ = g.add_edge(a, b); } else { let _ = g.add_edg_with_weight(a, b, w); }
             }
             for i in removed { let _ = g.remove_causaloid(i); }
+            if readd {
+                let mut given: Vec<usize> = Vec::new();
+                for c in re_nodes {
+                    let ix = g.add_causaloid(c);
+                    given.push(ix);
+                    while kids.len() <= ix { kids.push((vec![], 0)); }
+                    kids[ix] = (vec![], 0);
+                }
+                out.push(given.len() as i128);
+                out.extend(given.iter().map(|x| *x as i128));
+                let res = |x: usize| if x >= n { given.get(x - n).copied().unwrap_or(usize::MAX) } else { x };
+                for (a, b, w) in re_edges {
+                    if w == 0 { let _ = g.add_edge(res(a), res(b)); } else { let _ = g.add_edg_with_weight(res(a), res(b), w); }
+                }
+            }
             let g: &'static BaseCausalGraph<'static> = Box::leak(Box::new(g));
             let shapes: Vec<Shape> = kids.into_iter().enumerate().filter(|(i, _)| g.contains_causaloid(*i))
                 .map(|(i, (k, kd))| mk_shape(g.get_causaloid(i).unwrap(), k, kd)).collect();
